@@ -41,6 +41,10 @@ class ExprModel:
     def _df(self, st, v):
         if isinstance(v, Ref):
             o = st.heap.get(v.oid)
+            if o is None:
+                from ..state import LAZY
+                if v.oid in LAZY:
+                    o = st.obj(v)          # lazily allocated frame (element of a symbolic-length list of records)
             if isinstance(o, DfObj):
                 return o
         return None
